@@ -151,6 +151,7 @@ class Collector:
         }
 
 
+HARD_STALL_HOOK = [None]     # set by the worker: records the stall violation, writes the result file and ends the process
 STALLED = [None]      # the first stall violation seen in this process (machines stop executing steps after it: no shrinking of stalls)
 
 
@@ -178,6 +179,10 @@ class cpu_guard:
 
         def on_alarm(sig, frm):
             self.fired += 1
+            if self.fired == 1:
+                signal.setitimer(signal.ITIMER_VIRTUAL, 0.5, 0.5)     # from now on break every further spin quickly so that the case comes to an end
+            if self.fired > 2000 and HARD_STALL_HOOK[0] is not None:  # the code under test swallows everything and keeps spinning: give up on this worker
+                HARD_STALL_HOOK[0](STALLED[0] or self._violation())
             f = frm
             while f is not None and self.where == "?":
                 fn = f.f_code.co_filename.replace("\\", "/")
